@@ -364,6 +364,16 @@ class Extreme:
         return self
 
 
+class SymGroupBy:
+    """df.groupby(key) kept abstract: contracts that iterate over it run the loop body on a window over one group."""
+
+    def __init__(self, df, key):
+        self.df, self.key = df, key
+
+    def __deepcopy__(self, memo):
+        return self
+
+
 class RowView:
     """One row of a frame as seen by a row-wise lambda: row["col"] / row.col."""
 
@@ -431,6 +441,8 @@ class Loc:
 
     def hv_setitem(self, ex, idx, v, pc):
         df = self.df
+        if isinstance(idx, tuple) and len(idx) == 2 and isinstance(idx[1], list) and len(idx[1]) == 1 and isinstance(idx[1][0], str):
+            idx = (idx[0], idx[1][0])
         if isinstance(idx, tuple) and len(idx) == 2 and isinstance(idx[1], str):
             rows, col = idx
             if rows is ALL:
@@ -728,6 +740,9 @@ class SymDF:
             newcols = self.cols if kwargs.get("drop") is False else {c: k for c, k in self.cols.items() if c != col}
             out = SymDF(self.uni, newcols, self.present, lambda r: lab(r), self.name + "_si", self.order)
             out.label_name = col
+            for extra in ("concat_parts", "melt_values"):
+                if hasattr(self, extra):
+                    setattr(out, extra, getattr(self, extra))
             return out
         if attr == "apply" and kwargs.get("axis") == 1:
             _assume("pandas DataFrame.apply(f, axis=1): f applied to every row (a mapping column -> value), result aligned with the rows")
@@ -806,6 +821,9 @@ class SymDF:
         if attr == "to_numpy":
             _assume("pandas DataFrame.to_numpy(): 2-d array, one row per frame row, columns in frame order; dtype object unless all columns are numeric")
             return FrameArray(self)
+        if attr == "groupby":
+            key = args[0] if args else kwargs.get("by")
+            return SymGroupBy(self, key)
         if attr == "merge":
             return merge(ex, self, args[0], kwargs, pc)
         if attr == "join":
